@@ -7,11 +7,18 @@ Property theorems over the model of `VectorContainer.reindex` / `BaseModel.reind
 for every object (any number of variables of any dtypes, any values), every old and new span (permuted, disjoint,
 shrunk, extended, with repeated labels), every `fill_value` / keyword fills / `strict` combination.
 
-NOT a theorem here: "the original object is unchanged and shares nothing with the result".  In this functional
-model the original is an immutable value and the result is built by `{ o with … }`, so "unchanged" holds by
-construction of the model, not by proof; aliasing needs the heap model (C11, `Heap.lean`, built separately).
-Both are checked on the real code by the C12 oracle (state snapshot before/after, `id` / `np.shares_memory` of
-every reachable array and list, mutate-one-side-observe-the-other).
+Scope of the statements.  `reindex_spec`, `reindex_succeeds`, `reindex_strict_unknown` were first written for
+list-like spans; the section "Every span kind" restates them for every lookup the model has (`reindex_spec_all`,
+`reindex_succeeds_all`, `reindex_keyError_cause`, `reindex_lookup_error` for `SpanKind.list` / `.numpy`;
+`reindexWith_spec`, `reindexWith_succeeds` relative to a given position map — the pandas case, where `in` /
+`get_loc` are inputs).
+
+"The original object is unchanged": `reindex` is a function of the object in this model, so the clause holds by
+construction and is not a theorem; what is proved is that the result is built only from the old values and the fill
+(`reindex_elements_from_old_or_fill`, `reindex_series_local`, `copy_loop_natural`).  "Shares nothing with the
+result" is about object identity: the model has none (heap model: C11), so it is NOT a theorem; both clauses are
+checked on the real code by the C12 oracle (state snapshot before/after, `id` / `np.shares_memory` of every
+reachable array, list and object-dtype element, mutate-one-side-observe-the-other).
 -/
 set_option linter.unusedSimpArgs false
 namespace Fsic.C12
@@ -332,5 +339,427 @@ theorem reindex_succeeds (o : Obj M) (new : List Nat) (fv : PyVal) (sa : Option 
     obtain ⟨y, hy⟩ := this nv hnv
     rw [hy] at he
     exact absurd he (by simp)
+
+/-! ## Non-vacuity (review): the hypotheses of the theorems above at a concrete reindex
+
+Old span `[10, 11, 12]`, new span `[12, 99, 10, 12]` (permuted, one absent label, one repeated label), an `int8` and a
+`<U1` variable, keyword fill for `S`. -/
+
+def exO : Obj Unit :=
+  ⟨[10, 11, 12], [("X", ⟨.int (-128) 127, [.i 1, .i 2, .i 3]⟩), ("S", ⟨.str 1, [.s ['.'], .s ['.'], .s ['F']]⟩)], false, ()⟩
+def exR : Obj Unit :=
+  ⟨[12, 99, 10, 12], [("X", ⟨.int (-128) 127, [.i 3, .i 0, .i 1, .i 3]⟩), ("S", ⟨.str 1, [.s ['F'], .s ['-'], .s ['.'], .s ['F']]⟩)],
+   false, ()⟩
+theorem exR_eq : reindex .list exO [12, 99, 10, 12] .none none [("S", .s ['-'])] = .ok exR := rfl
+
+-- reindex_spec / reindex_preserves_meta: `h`
+example : exR.span = [12, 99, 10, 12] ∧ exR.vars.length = exO.vars.length :=
+  ⟨(reindex_spec _ _ _ _ _ _ exR_eq).1, (reindex_spec _ _ _ _ _ _ exR_eq).2.1⟩
+example : ∃ data fill, exR.vars[1]? = some ("S", ⟨.str 1, data⟩) ∧ data.length = 4 ∧
+    coerce (.str 1) (chosenFill [("S", .s ['-'])] .none "S") = .ok fill ∧
+    ∀ (i l : Nat), ([12, 99, 10, 12] : List Nat)[i]? = some l → data[i]? = match firstIndex l [10, 11, 12] with
+      | some k => [Val.s ['.'], .s ['.'], .s ['F']][k]?
+      | none => some fill :=
+  (reindex_spec _ _ _ _ _ _ exR_eq).2.2 1 "S" ⟨.str 1, [.s ['.'], .s ['.'], .s ['F']]⟩ rfl
+example : exR.strict = exO.strict ∧ exR.extra = exO.extra :=
+  ⟨(reindex_preserves_meta _ _ _ _ _ _ _ exR_eq).2.1, (reindex_preserves_meta _ _ _ _ _ _ _ exR_eq).2.2.1⟩
+-- the same for a NumPy span (unique old labels)
+example : (reindex .numpy exO [12, 99, 10, 12] .none none [("S", .s ['-'])]).toOption.map (·.vars) = some exR.vars := by
+  decide +kernel
+-- default_by_kind: each premise holds of a real NumPy kind character
+example : branchOf 'u' = .int ∧ branchOf 'b' = .bool ∧ branchOf 'U' = .str ∧ branchOf 'S' = .bytes := by decide
+example : coerce (mkDType 'u' 2 []) .none = .ok (.i 0) := (default_by_kind 'u' 2 []).1 (by decide)
+-- reflected_branches / reflected_property_defaults: the premises hold of a probed row
+example : ∃ e ∈ Fsic.Generated.reindexProbes, branchOf e.2.1 ≠ .passthrough ∧ branchOf e.2.1 ≠ .bytes ∧
+    propertyDefault e.2.1 = some ("i", 0, false, []) :=
+  ⟨("uint16", 'u', 2, ("i", 0, false, []), ("i", 2, false, [])), by decide, by decide, by decide, by decide⟩
+-- fill_precedence: both premises
+example : [("S", PyVal.s ['-'])].lookup "S" = some (.s ['-']) ∧ [("S", PyVal.s ['-'])].lookup "X" = none := by decide
+-- reindex_strict_unknown: both premises of the first part, the premise of the second
+example : effectiveStrict none true = true ∧ hasUnknown [("Q", .i 1)] ["X"] = true ∧
+    effectiveStrict (some false) true = false := by decide
+example : reindex .list (⟨[1, 2], [("X", ⟨.float, [.f 0, .f 0]⟩)], true, ()⟩ : Obj Unit) [2, 3] .none none
+    [("Q", .i 1)] = .error .keyError :=
+  (reindex_strict_unknown .list ⟨[1, 2], [("X", ⟨.float, [.f 0, .f 0]⟩)], true, ()⟩ _ _ _ _).1 (by decide) (by decide)
+-- reindex_succeeds: hwf, hstrict, hco
+example : ∃ r, reindex .list exO [12, 99, 10, 12] .none none [("S", .s ['-'])] = .ok r :=
+  reindex_succeeds exO _ _ _ _ (by decide) (by decide) (by
+    intro nv h
+    simp only [exO, List.mem_cons, List.not_mem_nil, or_false] at h
+    rcases h with rfl | rfl <;> exact ⟨_, rfl⟩)
+-- … and a fill value that cannot be coerced (hco fails): `reindex` raises, so `hco` is a real restriction
+example : reindex .list exO [12, 99] (.i 1000) none [] = .error .coercion := rfl
+
+/-! ## Every span kind (review)
+
+The model has two built-in lookups (`SpanKind.list`: `in` + `.index`; `SpanKind.numpy`: `(arr == p).any()` + the
+fallback locator, which raises for duplicate labels) and the table form `reindexWith`, where the position map is
+an input (pandas: `in` / `get_loc` answered by pandas itself).  The theorems below are stated relative to the lookup. -/
+
+/-- **reindex_spec relative to a given position map** (`reindexWith`: the pandas case, and the core of every
+    other case).  `pm[i] = some k` ⇔ the lookup found the `i`-th new period at old position `k`.  If the call
+    returns `r`: every variable keeps its name, order and dtype; a new period found at old position `k` holds the old
+    value at `k`; every other new period holds the variable's fill (keyword fill if given, else `fill_value`,
+    coerced by dtype). -/
+theorem reindexWith_spec (o : Obj M) (new : List Nat) (pm : List (Option Nat)) (fv : PyVal) (sa : Option Bool)
+    (fills : List (String × PyVal)) (r : Obj M) (h : reindexWith o new pm fv sa fills = .ok r) :
+    r.span = new ∧ r.strict = o.strict ∧ r.extra = o.extra ∧ r.vars.length = o.vars.length ∧
+    ∀ (j : Nat) (name : String) (ser : Series), o.vars[j]? = some (name, ser) →
+      ∃ data fill, r.vars[j]? = some (name, ⟨ser.dtype, data⟩) ∧ data.length = new.length ∧
+        coerce ser.dtype (chosenFill fills fv name) = .ok fill ∧
+        ∀ (i : Nat), i < new.length →
+          data[i]? = match pm[i]? with
+                     | some (some k) => ser.data[k]?
+                     | _ => some fill := by
+  unfold reindexWith at h
+  split at h
+  · exact absurd h (by simp)
+  · unfold finish at h
+    cases hm : mapE (reindexVar new.length pm fills fv) o.vars with
+    | error e => simp [hm] at h
+    | ok vs =>
+      simp [hm] at h
+      subst h
+      obtain ⟨hl, hj⟩ := mapE_ok _ _ _ hm
+      refine ⟨rfl, rfl, rfl, hl, ?_⟩
+      intro j name ser hjv
+      obtain ⟨y, hy, hfy⟩ := hj j (name, ser) hjv
+      unfold reindexVar at hfy
+      simp only at hfy
+      cases hc : coerce ser.dtype (chosenFill fills fv name) with
+      | error e => simp [hc] at hfy
+      | ok fill =>
+        simp only [hc] at hfy
+        unfold rebuild at hfy
+        cases hw : writeAll ser.data pm 0 (List.replicate new.length fill) with
+        | error e => simp [hw] at hfy
+        | ok data =>
+          simp [hw] at hfy
+          subst hfy
+          obtain ⟨hlen, hwr⟩ := writeAll_spec _ _ _ _ _ hw
+          refine ⟨data, fill, hy, by simpa using hlen, rfl, ?_⟩
+          intro i hi
+          rw [hwr i (by simpa using hi)]
+          unfold written
+          simp only [Nat.zero_le, if_true, Nat.sub_zero]
+          cases hp : pm[i]? with
+          | none => simp [hi]
+          | some q => cases q with
+            | none => simp [hi]
+            | some k => rfl
+
+example : (reindexWith (⟨[10, 11, 12], [("X", ⟨.int (-128) 127, [.i 1, .i 2, .i 3]⟩)], false, ()⟩ : Obj Unit)
+    [12, 99, 10] [some 2, none, some 0] (.i 7) none []).toOption.map (·.vars) =
+    some [("X", ⟨.int (-128) 127, [.i 3, .i 7, .i 1]⟩)] := by decide
+
+/-- With the map that a built-in lookup computes, `reindex` IS `reindexWith` on that map; and whenever a lookup
+    answers for every new label, its map is the first-index map — so every span kind then agrees with the
+    list-like kind. -/
+theorem reindex_kind_eq_list (kind : SpanKind) (o : Obj M) (new : List Nat) (fv : PyVal) (sa : Option Bool)
+    (fills : List (String × PyVal)) (pm : List (Option Nat)) (hp : posmapOf kind o.span new = .ok pm) :
+    reindex kind o new fv sa fills = reindex .list o new fv sa fills ∧
+    pm = new.map (fun l => firstIndex l o.span) := by
+  have hpm := posmapOf_ok kind o.span new pm hp
+  refine ⟨?_, hpm⟩
+  unfold reindex
+  rw [hp, posmapOf_list, hpm]
+
+/-- **Lookup failures propagate as the model says.**  If the strict check passes and the lookup of the span kind
+    raises for some new label, `reindex` raises the same error; for NumPy spans that error is KeyError and the
+    label occurs more than once in the old span (the fallback locator's NotImplementedError is re-raised as KeyError
+    by `_locate_period_in_span`); list-like lookups never raise. -/
+theorem reindex_lookup_error (kind : SpanKind) (o : Obj M) (new : List Nat) (fv : PyVal) (sa : Option Bool)
+    (fills : List (String × PyVal)) (e : Err)
+    (hc : (effectiveStrict sa o.strict && hasUnknown fills (o.vars.map (·.1))) = false)
+    (hp : posmapOf kind o.span new = .error e) :
+    reindex kind o new fv sa fills = .error e ∧
+    (kind = .numpy → e = .keyError ∧ ∃ l ∈ new, 1 < countEq l o.span) ∧ kind ≠ .list := by
+  refine ⟨by simp [reindex, hc, hp], ?_, ?_⟩
+  · intro hk
+    subst hk
+    unfold posmapOf at hp
+    obtain ⟨l, hl, hle⟩ := mapE_error_of _ _ _ hp
+    obtain ⟨h1, h2⟩ := positionOf_numpy_error o.span l e hle
+    exact ⟨h1, l, hl, h2⟩
+  · intro hk
+    subst hk
+    rw [posmapOf_list] at hp
+    exact absurd hp (by simp)
+
+example : reindex .numpy (⟨[5, 5, 6], [("X", ⟨.float, [.f 0, .f 0, .f 0]⟩)], false, ()⟩ : Obj Unit) [6, 5] .none none []
+    = .error .keyError := rfl
+example : posmapOf .numpy [5, 5, 6] [6, 5] = .error .keyError := rfl
+
+/-- **reindex_spec for every span kind.**  If `reindex` returns `r` — for list-like AND NumPy spans — then the
+    lookup answered for every new label, with the first index of the label in the old span (`none` = a new period),
+    and every variable, in order and with its dtype, holds at every new position the old value at that index, else
+    its fill. -/
+theorem reindex_spec_all (kind : SpanKind) (o : Obj M) (new : List Nat) (fv : PyVal) (sa : Option Bool)
+    (fills : List (String × PyVal)) (r : Obj M) (h : reindex kind o new fv sa fills = .ok r) :
+    posmapOf kind o.span new = .ok (new.map fun l => firstIndex l o.span) ∧
+    r.span = new ∧ r.vars.length = o.vars.length ∧
+    ∀ (j : Nat) (name : String) (ser : Series), o.vars[j]? = some (name, ser) →
+      ∃ data fill, r.vars[j]? = some (name, ⟨ser.dtype, data⟩) ∧ data.length = new.length ∧
+        coerce ser.dtype (chosenFill fills fv name) = .ok fill ∧
+        ∀ (i : Nat) (l : Nat), new[i]? = some l →
+          data[i]? = match firstIndex l o.span with
+                     | some k => ser.data[k]?
+                     | none => some fill := by
+  cases hp : posmapOf kind o.span new with
+  | error e =>
+    have : reindex kind o new fv sa fills = .error e ∨ reindex kind o new fv sa fills = .error .keyError := by
+      unfold reindex
+      split
+      · exact Or.inr rfl
+      · rw [hp]; exact Or.inl rfl
+    rcases this with h' | h' <;> rw [h'] at h <;> exact absurd h (by simp)
+  | ok pm =>
+    obtain ⟨heq, hpm⟩ := reindex_kind_eq_list kind o new fv sa fills pm hp
+    rw [heq] at h
+    exact ⟨by rw [hpm], reindex_spec o new fv sa fills r h⟩
+
+example : (reindex .numpy (⟨[10, 11, 12], [("X", ⟨.int (-128) 127, [.i 1, .i 2, .i 3]⟩)], false, ()⟩ : Obj Unit)
+    [12, 99, 10, 12] .none none []).toOption.map (·.vars) = some [("X", ⟨.int (-128) 127, [.i 3, .i 0, .i 1, .i 3]⟩)] := by
+  decide
+
+/-- **Success for every span kind**: on a well-formed object, when the strict check passes, every chosen fill can be
+    coerced and the lookup answers for every new label (always for list-like spans; for NumPy spans: no new label
+    occurs more than once in the old span), `reindex` returns a result. -/
+theorem reindex_succeeds_all (kind : SpanKind) (o : Obj M) (new : List Nat) (fv : PyVal) (sa : Option Bool)
+    (fills : List (String × PyVal))
+    (hwf : ∀ nv ∈ o.vars, nv.2.data.length = o.span.length)
+    (hstrict : (effectiveStrict sa o.strict && hasUnknown fills (o.vars.map (·.1))) = false)
+    (hco : ∀ nv ∈ o.vars, ∃ v, coerce nv.2.dtype (chosenFill fills fv nv.1) = .ok v)
+    (hlook : ∀ l ∈ new, ∃ p, positionOf kind o.span l = .ok p) :
+    ∃ r, reindex kind o new fv sa fills = .ok r := by
+  have hp : posmapOf kind o.span new = .ok (new.map fun l => firstIndex l o.span) := by
+    unfold posmapOf
+    apply mapE_total
+    intro l hl
+    obtain ⟨p, hp⟩ := hlook l hl
+    rw [hp, positionOf_ok kind o.span l p hp]
+  rw [(reindex_kind_eq_list kind o new fv sa fills _ hp).1]
+  exact reindex_succeeds o new fv sa fills hwf hstrict hco
+
+/-- The lookup of a NumPy span answers exactly when the label occurs at most once in the old span. -/
+theorem numpy_lookup_answers (old : List Nat) (l : Nat) :
+    (∃ p, positionOf .numpy old l = .ok p) ↔ countEq l old ≤ 1 := by
+  unfold positionOf
+  simp only
+  constructor
+  · intro ⟨p, hp⟩
+    split at hp
+    · assumption
+    · simp at hp
+  · intro h
+    exact ⟨firstIndex l old, by simp [h]⟩
+
+/-- **Success relative to a given position map** (the pandas case): every mapped old position must exist. -/
+theorem reindexWith_succeeds (o : Obj M) (new : List Nat) (pm : List (Option Nat)) (fv : PyVal) (sa : Option Bool)
+    (fills : List (String × PyVal))
+    (hwf : ∀ nv ∈ o.vars, nv.2.data.length = o.span.length)
+    (hstrict : (effectiveStrict sa o.strict && hasUnknown fills (o.vars.map (·.1))) = false)
+    (hco : ∀ nv ∈ o.vars, ∃ v, coerce nv.2.dtype (chosenFill fills fv nv.1) = .ok v)
+    (hpm : ∀ k, some k ∈ pm → k < o.span.length) :
+    ∃ r, reindexWith o new pm fv sa fills = .ok r := by
+  unfold reindexWith
+  simp only [hstrict]
+  have : ∀ nv ∈ o.vars, ∃ y, reindexVar new.length pm fills fv nv = .ok y := by
+    intro nv hnv
+    obtain ⟨v, hv⟩ := hco nv hnv
+    unfold reindexVar
+    simp only [hv]
+    obtain ⟨out, hout⟩ := writeAll_total nv.2.data pm 0 (List.replicate new.length v) (by
+      intro k hk
+      rw [hwf nv hnv]
+      exact hpm k hk)
+    exact ⟨(nv.1, ⟨nv.2.dtype, out⟩), by simp [hout, rebuild]⟩
+  cases hm : mapE (reindexVar new.length pm fills fv) o.vars with
+  | ok vs => exact ⟨_, rfl⟩
+  | error e =>
+    obtain ⟨nv, hnv, he⟩ := mapE_error_of _ _ _ hm
+    obtain ⟨y, hy⟩ := this nv hnv
+    rw [hy] at he
+    exact absurd he (by simp)
+
+/-- When the strict check passes, the list-like `reindex` never raises KeyError (it has no other source). -/
+theorem reindex_list_no_keyError (o : Obj M) (new : List Nat) (fv : PyVal) (sa : Option Bool)
+    (fills : List (String × PyVal))
+    (hc : (effectiveStrict sa o.strict && hasUnknown fills (o.vars.map (·.1))) = false) :
+    reindex .list o new fv sa fills ≠ .error .keyError := by
+  intro hk
+  rw [reindex_list_unfold] at hk
+  simp only [hc] at hk
+  unfold finish at hk
+  cases hm : mapE (reindexVar new.length (new.map fun l => firstIndex l o.span) fills fv) o.vars with
+  | ok vs => simp [hm] at hk
+  | error e =>
+    simp [hm] at hk
+    subst hk
+    obtain ⟨nv, _, hnv⟩ := mapE_error_of _ _ _ hm
+    unfold reindexVar at hnv
+    cases hc : coerce nv.2.dtype (chosenFill fills fv nv.1) with
+    | error e =>
+      simp only [hc] at hnv
+      have he : e = .keyError := by injection hnv
+      subst he
+      exact coerce_ne_keyError _ _ hc
+    | ok fill =>
+      simp only [hc] at hnv
+      unfold rebuild at hnv
+      cases hw : writeAll nv.2.data (new.map fun l => firstIndex l o.span) 0 (List.replicate new.length fill) with
+      | ok data => simp [hw] at hnv
+      | error e =>
+        simp [hw] at hnv
+        subst hnv
+        -- `writeAll` only raises IndexError
+        have : ∀ (ps : List (Option Nat)) (i : Nat) (dst : List Val),
+            writeAll nv.2.data ps i dst ≠ .error .keyError := by
+          intro ps
+          induction ps with
+          | nil => intro i dst; simp [writeAll]
+          | cons p ps ih =>
+            intro i dst
+            cases p with
+            | none => simp only [writeAll]; exact ih _ _
+            | some k =>
+              simp only [writeAll]
+              cases nv.2.data[k]? with
+              | none => simp
+              | some v => exact ih _ _
+        exact this _ _ _ hw
+
+/-- **reindex_strict_unknown for every span kind**: a KeyError has exactly two possible causes — an unknown fill
+    keyword under effective strictness, or the span's own lookup raising KeyError (NumPy: duplicate label). -/
+theorem reindex_keyError_cause (kind : SpanKind) (o : Obj M) (new : List Nat) (fv : PyVal) (sa : Option Bool)
+    (fills : List (String × PyVal)) (h : reindex kind o new fv sa fills = .error .keyError) :
+    (effectiveStrict sa o.strict = true ∧ hasUnknown fills (o.vars.map (·.1)) = true) ∨
+    posmapOf kind o.span new = .error .keyError := by
+  cases hc : (effectiveStrict sa o.strict && hasUnknown fills (o.vars.map (·.1))) with
+  | true => left; simpa using hc
+  | false =>
+    right
+    cases hp : posmapOf kind o.span new with
+    | error e =>
+      have := (reindex_lookup_error kind o new fv sa fills e hc hp).1
+      rw [this] at h
+      injection h with h
+      rw [h]
+    | ok pm =>
+      rw [(reindex_kind_eq_list kind o new fv sa fills pm hp).1] at h
+      exact absurd h (reindex_list_no_keyError o new fv sa fills hc)
+
+/-! ## "The original object is unchanged"; what the result is built from (review)
+
+`reindex` is a FUNCTION of the object: it returns a new value and there is no way for it to modify its argument
+— "the original is unchanged" holds by construction of a pure model and is therefore NOT a theorem (nothing to
+prove); on the real code it is checked by the oracle (snapshot before/after, identities, `np.shares_memory`,
+mutation probes).  What IS proved here is the non-trivial half — that the result is built ONLY from the old
+store's values and the fill, variable by variable:
+
+* `reindex_elements_from_old_or_fill` — every element of every result series is an element of the SAME variable's
+  old series, or that variable's fill;
+* `reindex_series_local` — the result series of a variable depends on nothing but that variable's old series, the
+  two spans and the fill arguments (not on the other variables, not on `extra`);
+* `copy_loop_natural` — the copy loop commutes with every relabelling of the values: it moves values, it never
+  inspects or combines them (the model has no array identities; this is the frame statement it can express). -/
+
+theorem reindex_elements_from_old_or_fill (kind : SpanKind) (o : Obj M) (new : List Nat) (fv : PyVal)
+    (sa : Option Bool) (fills : List (String × PyVal)) (r : Obj M) (h : reindex kind o new fv sa fills = .ok r)
+    (j : Nat) (name : String) (ser : Series) (hj : o.vars[j]? = some (name, ser)) :
+    ∃ data fill, r.vars[j]? = some (name, ⟨ser.dtype, data⟩) ∧
+      coerce ser.dtype (chosenFill fills fv name) = .ok fill ∧ ∀ v ∈ data, v ∈ ser.data ∨ v = fill := by
+  obtain ⟨_, _, _, hs⟩ := reindex_spec_all kind o new fv sa fills r h
+  obtain ⟨data, fill, hr, hlen, hc, hd⟩ := hs j name ser hj
+  refine ⟨data, fill, hr, hc, ?_⟩
+  intro v hv
+  obtain ⟨i, hi, hiv⟩ := List.getElem_of_mem hv
+  have hin : i < new.length := by omega
+  have hd' := hd i (new[i]'hin) (List.getElem?_eq_getElem hin)
+  rw [List.getElem?_eq_getElem hi, hiv] at hd'
+  cases hf : firstIndex (new[i]'hin) o.span with
+  | none => rw [hf] at hd'; right; exact (Option.some.inj hd')
+  | some k =>
+    rw [hf] at hd'
+    left
+    exact List.mem_of_getElem? hd'.symm
+
+theorem reindex_series_local (kind : SpanKind) (o o' : Obj M) (new : List Nat) (fv : PyVal) (sa sa' : Option Bool)
+    (fills : List (String × PyVal)) (r r' : Obj M)
+    (h : reindex kind o new fv sa fills = .ok r) (h' : reindex kind o' new fv sa' fills = .ok r')
+    (hspan : o.span = o'.span) (j : Nat) (hj : o.vars[j]? = o'.vars[j]?) :
+    r.vars[j]? = r'.vars[j]? := by
+  obtain ⟨_, _, hl, hs⟩ := reindex_spec_all kind o new fv sa fills r h
+  obtain ⟨_, _, hl', hs'⟩ := reindex_spec_all kind o' new fv sa' fills r' h'
+  cases hv : o.vars[j]? with
+  | none =>
+    have h1 : r.vars[j]? = none := by rw [List.getElem?_eq_none_iff] at hv ⊢; omega
+    have h2 : r'.vars[j]? = none := by rw [hj, List.getElem?_eq_none_iff] at hv; rw [List.getElem?_eq_none_iff]; omega
+    rw [h1, h2]
+  | some nv =>
+    obtain ⟨name, ser⟩ := nv
+    obtain ⟨data, fill, hr, hlen, hc, hd⟩ := hs j name ser hv
+    obtain ⟨data', fill', hr', hlen', hc', hd'⟩ := hs' j name ser (by rw [← hj]; exact hv)
+    have hf : fill = fill' := by rw [hc] at hc'; exact (Except.ok.inj hc')
+    have : data = data' := by
+      apply List.ext_getElem?
+      intro i
+      by_cases hi : i < new.length
+      · rw [hd i (new[i]'hi) (List.getElem?_eq_getElem hi), hd' i (new[i]'hi) (List.getElem?_eq_getElem hi), hspan, hf]
+      · rw [List.getElem?_eq_none (by omega), List.getElem?_eq_none (by omega)]
+    rw [hr, hr', this]
+
+theorem copy_loop_natural (g : Val → Val) (src : List Val) (ps : List (Option Nat)) (n : Nat) (fill : Val) :
+    writeAll (src.map g) ps 0 (List.replicate n (g fill)) = (writeAll src ps 0 (List.replicate n fill)).map (List.map g) := by
+  have := writeAll_map g src ps 0 (List.replicate n fill)
+  simpa using this
+
+example : writeAll [.i 1, .i 2, .i 3] [some 2, none, some 0] 0 (List.replicate 3 (.i 7)) = .ok [.i 3, .i 7, .i 1] := rfl
+
+/-! ### Non-vacuity of the generalised theorems (same objects `exO` / `exR` as above) -/
+
+-- reindex_spec_all / reindex_elements_from_old_or_fill: the hypothesis holds for a NumPy span
+theorem exR_numpy : reindex .numpy exO [12, 99, 10, 12] .none none [("S", .s ['-'])] = .ok exR := rfl
+example : posmapOf .numpy exO.span [12, 99, 10, 12] = .ok [some 2, none, some 0, some 2] :=
+  (reindex_spec_all .numpy exO _ _ _ _ exR exR_numpy).1
+example : ∃ data fill, exR.vars[0]? = some ("X", ⟨.int (-128) 127, data⟩) ∧
+    coerce (.int (-128) 127) (chosenFill [("S", .s ['-'])] .none "X") = .ok fill ∧ ∀ v ∈ data, v ∈ [Val.i 1, .i 2, .i 3] ∨ v = fill :=
+  reindex_elements_from_old_or_fill .numpy exO _ _ _ _ exR exR_numpy 0 "X" _ rfl
+-- reindex_succeeds_all: all four hypotheses hold (NumPy span without duplicates) …
+example : ∃ r, reindex .numpy exO [12, 99, 10, 12] .none none [("S", .s ['-'])] = .ok r :=
+  reindex_succeeds_all .numpy exO _ _ _ _ (by decide) (by decide) (by
+    intro nv h
+    simp only [exO, List.mem_cons, List.not_mem_nil, or_false] at h
+    rcases h with rfl | rfl <;> exact ⟨_, rfl⟩) (by
+    intro l hl
+    exact (numpy_lookup_answers exO.span l).mpr (by
+      simp only [List.mem_cons, List.not_mem_nil, or_false] at hl
+      rcases hl with rfl | rfl | rfl | rfl <;> decide))
+-- … and `hlook` is a real restriction: with a duplicate label in a NumPy old span the lookup, and reindex, raise
+example : ¬ ∃ p, positionOf .numpy [5, 5, 6] 5 = .ok p := by
+  rw [numpy_lookup_answers]; decide
+example : posmapOf .numpy [5, 5, 6] [6, 5] = .error .keyError ∧
+    reindex .numpy (⟨[5, 5, 6], [("X", ⟨.float, [.f 0, .f 0, .f 0]⟩)], false, ()⟩ : Obj Unit) [6, 5] .none none [] = .error .keyError :=
+  ⟨rfl, rfl⟩
+-- reindex_keyError_cause: both causes occur
+example : reindex .numpy (⟨[5, 5, 6], [("X", ⟨.float, [.f 0, .f 0, .f 0]⟩)], false, ()⟩ : Obj Unit) [6, 5] .none none [] = .error .keyError ∧
+    reindex .numpy (⟨[1, 2], [("X", ⟨.float, [.f 0, .f 0]⟩)], true, ()⟩ : Obj Unit) [2, 3] .none none [("Q", .i 1)] = .error .keyError :=
+  ⟨rfl, rfl⟩
+-- reindexWith_spec / reindexWith_succeeds: a table (pandas-style) position map
+example : ∃ r, reindexWith exO [12, 99, 10, 12] [some 2, none, some 0, some 2] .none none [("S", .s ['-'])] = .ok r :=
+  reindexWith_succeeds exO _ _ _ _ _ (by decide) (by decide) (by
+    intro nv h
+    simp only [exO, List.mem_cons, List.not_mem_nil, or_false] at h
+    rcases h with rfl | rfl <;> exact ⟨_, rfl⟩) (by
+    intro k hk
+    simp only [List.mem_cons, List.not_mem_nil, or_false] at hk
+    rcases hk with h | h | h | h <;> simp at h <;> subst h <;> decide)
+-- reindex_series_local: two different objects that agree on variable 0 (other variable, strict flag differ)
+example : (reindex .list exO [12, 10] .none none []).toOption.map (·.vars[0]?) =
+    (reindex .list (⟨[10, 11, 12], [("X", ⟨.int (-128) 127, [.i 1, .i 2, .i 3]⟩), ("Z", ⟨.bool, [.b true, .b true, .b false]⟩)], true, ()⟩ : Obj Unit)
+      [12, 10] .none none []).toOption.map (·.vars[0]?) := by decide
+-- copy_loop_natural: relabelling i ↦ i + 100
+example : writeAll ([Val.i 1, .i 2, .i 3].map fun v => match v with | .i x => .i (x + 100) | w => w) [some 2, none, some 0] 0
+    (List.replicate 3 (.i 107)) = .ok [.i 103, .i 107, .i 101] := rfl
 
 end Fsic.C12
